@@ -253,6 +253,11 @@ func simpleEncodeForAnimation(img image.Image, isLossless bool, quality float32)
 		Lossless: isLossless,
 		Quality:  quality,
 		Method:   4,
+		// Same alpha defaults as encodeFrameForAnimation (zero values would
+		// quantise the alpha plane to two levels).
+		AlphaCompression: -1,
+		AlphaFiltering:   -1,
+		AlphaQuality:     -1,
 	}
 	if err := Encode(&buf, img, opts); err != nil {
 		return nil, err
